@@ -27,7 +27,7 @@ RULE = ('One case = (a) "text torture": a generated structure whose state names,
         'containing >= 1 torture string and >= 1 of {history, orthogonal, contract, priority != 0}.')
 ASSUMPTIONS = ['characters YAML cannot carry without escaping rules of its own (C0/C1 controls other than \\n \\t, U+2028/2029, BOM, '
                'surrogates, \\r) are excluded; event names carry no surrounding whitespace; code strings are non-empty after stripping']
-REQUIRED_COUNTERS = ['roundtrips', 'fields_compared', 'eq_checks', 'second_roundtrips', 'behaviour_steps_compared',
+REQUIRED_COUNTERS = ['yaml_1_1_document_imported_before', 'roundtrips', 'fields_compared', 'eq_checks', 'second_roundtrips', 'behaviour_steps_compared',
                      'shipped_roundtrips', 'charts_with_long_nonascii', 'charts_with_noncontiguous_transitions']
 TIERS = dict(quick=dict(steps=25, gen=dict(max_states=10, max_depth=4, max_trans=12)),
              thorough=dict(steps=45, gen=dict(max_states=16, max_depth=5, max_trans=22)))
@@ -159,7 +159,23 @@ def compare_eq(a, b):
     return None
 
 
+Y11 = '''%YAML 1.1
+---
+statechart:
+  name: legacy
+  root state:
+    name: root
+    initial: a
+    states:
+      - name: a
+'''
+
+
 def run_case(acc, rnd, tier, case):
+    if rnd.random() < 0.05:
+        # a valid document carrying a %YAML directive was imported earlier in this process: no state may survive in the io layer
+        import_from_yaml(Y11)
+        acc.count('yaml_1_1_document_imported_before')
     r = rnd.random()
     if r < 0.04:
         return shipped_case(acc, rnd)
